@@ -1,3 +1,5 @@
+use std::borrow::Cow;
+
 use ahash::{HashMap, HashMapExt, HashSet, HashSetExt};
 use indextree::NodeId;
 use xmlparser::{ElementEnd, StrSpan, Token, Tokenizer};
@@ -220,6 +222,14 @@ impl DocumentBuilder {
     }
 
     fn cdata_text(&mut self, content: &str, xot: &mut Xot) -> Result<NodeId, ParseError> {
+        // line ends are normalised inside CDATA sections too
+        // https://www.w3.org/TR/xml/#sec-line-ends
+        let content = if content.contains('\r') {
+            Cow::Owned(content.replace("\r\n", "\n").replace('\r', "\n"))
+        } else {
+            Cow::Borrowed(content)
+        };
+        let content = content.as_ref();
         if let Some(last) = self.consolidate_text(content, xot) {
             return Ok(last);
         }
